@@ -54,6 +54,11 @@ def policy(cond, tr):
         return True
     if isinstance(cond, (sp.StrictLessThan, sp.LessThan)) and cond.lhs.is_number and 0 < abs(float(cond.lhs)) < 1e-9:
         return True
+    # the complementary spellings of the same guard (`beta2 <= eps`, `eps >= beta2`)
+    if isinstance(cond, (sp.StrictLessThan, sp.LessThan)) and cond.rhs.is_number and 0 < abs(float(cond.rhs)) < 1e-9:
+        return False
+    if isinstance(cond, (sp.StrictGreaterThan, sp.GreaterThan)) and cond.lhs.is_number and 0 < abs(float(cond.lhs)) < 1e-9:
+        return False
     return None
 
 
@@ -107,6 +112,7 @@ def run(repo, chk, tier):
     bound(repo, chk, tier)
     chain(repo, chk)
     node_order(repo, chk)
+    massless_config(repo, chk)
     dtype_flow(repo, chk)
     chk.info("not decided: flatness of the accepted sample, cal_max_weight (numerical maximisation), rounding, refill estimate")
 
@@ -494,7 +500,7 @@ def count(repo, chk):
     component, flatten_mass keeps a deterministic subset (at least one per round), generate_momentum is a marker.
     Decided on the returned value: exactly n_iter events, all accepted ones, no event twice, components aligned."""
     from ..sym import TensorList
-    chk.rule("S-count", "generate(n_iter) interpreted on batches of event tokens (n_iter = 1, 2, 5, 8, 13; acceptance patterns 1/2, 1/3, 2/3): the momenta are built from exactly n_iter accepted events, none twice, the mass components aligned event by event")
+    chk.rule("S-count", "generate(n_iter) interpreted on batches of event tokens (n_iter = 1, 2, 5, 8, 13; acceptance patterns 1/2, 1/3, 2/3, and 1/150 counted over all rounds for n_iter = 1, 2, 3 - many rounds without a single accepted event): the momenta are built from exactly n_iter accepted events, none twice, the mass components aligned event by event")
     cls = repo.cls(K + "PhaseSpaceGenerator")
     fn = cls.methods.get("generate")
     need = {k: cls.methods.get(k) for k in ("generate_mass", "flatten_mass", "generate_momentum")}
@@ -502,8 +508,8 @@ def count(repo, chk):
         raise AnalysisError("PhaseSpaceGenerator.generate / generate_mass / flatten_mass / generate_momentum vanished")
     ncomp = 2
     cases = 0
-    for pat_name, keep in (("every 2nd", lambda k: k % 2 == 0), ("every 3rd", lambda k: k % 3 == 0), ("two of three", lambda k: k % 3 != 1)):
-        for want in (1, 2, 5, 8, 13):
+    for pat_name, keep in (("every 2nd", lambda k: k % 2 == 0), ("every 3rd", lambda k: k % 3 == 0), ("two of three", lambda k: k % 3 != 1), ("one candidate in 150 (counted over all rounds)", None)):
+        for want in ((1, 2, 5, 8, 13) if keep is not None else (1, 2, 3)):
             state = {"round": 0, "accepted": set(), "requested": []}
 
             def gen_mass(tr_, a_, k_, n_):
@@ -511,7 +517,7 @@ def count(repo, chk):
                 n_ev = int(a[0] if a else k_["n_iter"])
                 state["round"] += 1
                 state["requested"].append(n_ev)
-                if state["round"] > 40:
+                if state["round"] > (40 if keep is not None else 400):
                     raise AnalysisError("generate(): the refill loop does not terminate in the abstract run")
                 return [TensorList((state["round"], k, c) for k in range(n_ev)) for c in range(ncomp)]
 
@@ -523,7 +529,14 @@ def count(repo, chk):
                 bound_.update(k_)
                 eff_flag = bound_.get("importances", "<default %s>" % norm_text(need["flatten_mass"].defaults().get("importances")) if "importances" in need["flatten_mass"].defaults() else None)
                 state.setdefault("imp_flags", []).append(eff_flag)
-                out = [TensorList(x for k, x in enumerate(c) if keep(k)) for c in ms]
+                if keep is None:
+                    # a decay with a small acceptance: one candidate in 150, whatever the batch sizes - small requests
+                    # see many rounds without a single accepted event
+                    base = state.get("seen", 0)
+                    state["seen"] = base + len(ms[0])
+                    out = [TensorList(x for k, x in enumerate(c) if (base + k) % 150 == 149) for c in ms]
+                else:
+                    out = [TensorList(x for k, x in enumerate(c) if keep(k)) for c in ms]
                 for x in out[0]:
                     state["accepted"].add(x[:2])
                 return out
@@ -788,3 +801,53 @@ def chain(repo, chk):
         raise AnalysisError("tree_boost is not a single-path kernel: %s" % e)
     for k, nm in enumerate("txyz"):
         oblige(repo, chk, "T-chain", "tree_boost(p0, (m,0,0,0)) == p0, component %s" % nm, out[k], p0[k], tbf.key, "boost-%s" % nm)
+
+
+# --------------------------------------------------------------------------------------- S-mass0
+def massless_config(repo, chk):
+    """build_phsp_chain: the masses handed to the generator are the configured ones - a mass of exactly 0 is a mass"""
+    from ..sym import PyFunc, Raised
+
+    SAMPLE = "tf_pwa/config_loader/sample.py"
+    fn = repo.fn(SAMPLE + "::build_phsp_chain")
+    chk.rule("S-mass0", "build_phsp_chain interpreted on a probe decay group (two topologies without a common fixed-mass node) with the final-state masses (1/2, 1, 2), (0.0, 1, 2), (0, 0, 2) and (None, 1, 2): configured masses - zero included (photon, neutrino) - reach the generator as they are, only a missing mass (None) is refused")
+
+    class _P(str):
+        tok_attrs = None
+
+    def particle(name, mass):
+        p = _P(name)
+        p.tok_attrs = {"get_mass": PyFunc(lambda m_=mass: m_)}
+        return p
+
+    bad = None
+    n = 0
+    for masses, must_raise in (((sp.Rational(1, 2), sp.Integer(1), sp.Integer(2)), False), ((sp.Float(0.0), sp.Integer(1), sp.Integer(2)), False), ((sp.Integer(0), sp.Integer(0), sp.Integer(2)), False), ((None, sp.Integer(1), sp.Integer(2)), True)):
+        outs = [particle("p%d" % k, m_) for k, m_ in enumerate(masses)]
+        top = particle("top", sp.Integer(5))
+        structs = [SelfObj(None, {"inner": [_P("R_%d" % k)]}) for k in range(2)]
+        grp = SelfObj(None, {"topology_structure": PyFunc(lambda: list(structs)), "top": top, "outs": list(outs)})
+        tr = Translator(repo, hooks={"allow_raise": True}, max_depth=2)
+        raised = None
+        out = None
+        try:
+            out = tr.call_fn(fn, [grp])
+        except Raised as e:
+            raised = str(e)
+        except Unmodelled as e:
+            raise AnalysisError("build_phsp_chain cannot be interpreted on the probe group (masses %s): %s" % (masses, e))
+        n += 1
+        why = None
+        if must_raise and raised is None:
+            why = "a missing mass (None) is accepted: %r" % (out,)
+        elif not must_raise and raised is not None:
+            why = "the configured masses %s are refused (%s)" % (list(masses), raised)
+        elif not must_raise:
+            ok = isinstance(out, tuple) and len(out) == 3 and sp.sympify(out[0]) == 5 and isinstance(out[1], list) and len(out[1]) == 3 and all(sp.sympify(a) == sp.sympify(b) for a, b in zip(out[1], masses))
+            if not ok:
+                why = "the masses handed on are %r, configured %s" % (out[:2] if isinstance(out, tuple) else out, list(masses))
+        if why and bad is None:
+            bad = why
+    chk.oblige("S-mass0", "build_phsp_chain on %d mass tables (massless particles included, a missing mass refused)" % n, bad is None)
+    if bad:
+        chk.violation("S-mass0", fn.key, "zero-mass", "build_phsp_chain: %s - a decay with a massless final-state particle can no longer be generated (or is generated with other masses than configured: off the mass shell)" % bad, file=SAMPLE, line=fn.lineno)
